@@ -1,5 +1,6 @@
 import MlModel.Model.SchedVal
 import MlModel.Lemmas.SchedClean
+import MlModel.Lemmas.SchedVal
 import MlModel.Properties.C06
 /-!
 # C06 — results are delivered whatever their VALUE; "shutdown requested" is a RETRIABLE answer
@@ -15,32 +16,6 @@ open MlModel.Sched
 
 section Values
 variable {B V : Type}
-
-theorem asyncIterBatch_noexc : ∀ (a : IterAcc B V) (es : List (Elem B V)), a.raised = none →
-    (∀ e ∈ es, e.isExc = false) →
-    (asyncIterBatch a es).put = a.put ++ es.filterMap Elem.stopVal ∧
-    (asyncIterBatch a es).yielded = a.yielded ++ es.filterMap Elem.itemVal ∧
-    (asyncIterBatch a es).raised = none ∧
-    ((asyncIterBatch a es).exhausted = (a.exhausted || es.any fun e => e.stopVal.isSome))
-  | a, [], ha, _ => by simp [asyncIterBatch, ha]
-  | a, e :: es, ha, hes => by
-    have he := hes e (by simp)
-    have hes' : ∀ e' ∈ es, e'.isExc = false := fun e' h' => hes e' (by simp [h'])
-    cases e with
-    | item b =>
-      have := asyncIterBatch_noexc (asyncIterElem a (.item b)) es (by simp [asyncIterElem, ha]) hes'
-      simp [asyncIterBatch, asyncIterElem, ha, Elem.stopVal, Elem.itemVal] at this ⊢
-      exact this
-    | stop v =>
-      have := asyncIterBatch_noexc (asyncIterElem a (.stop v)) es (by simp [asyncIterElem, ha]) hes'
-      simp [asyncIterBatch, asyncIterElem, ha, Elem.stopVal] at this ⊢
-      exact this
-    | busy =>
-      have := asyncIterBatch_noexc (asyncIterElem a .busy) es (by simp [asyncIterElem, ha]) hes'
-      simp [asyncIterBatch, asyncIterElem, ha, Elem.stopVal, Elem.itemVal] at this ⊢
-      exact this
-    | timeoutExc => simp [Elem.isExc] at he
-    | otherExc => simp [Elem.isExc] at he
 
 /-- **A finished generator task's return value is forwarded exactly once, WHATEVER the value.**  For every
 type of values and every value `v` (no hypothesis on `v`: `0`, `''`, `[]`, `{}`, `None` are values like any
